@@ -1922,6 +1922,8 @@ class Exec(Exec, _Expr, _Calls, _Contracts, _Stmts, _Loops):
                     for label, f in _norm(post(c) if post else [], 'rpost'):
                         self.oblige(s, 'raises:%s:%s' % (exc, label), f, 'post')
                     break
+            if not matched and any(exc_subclass(o.exc, e) for e in proc.may_raise):
+                matched = True
             if not matched:
                 self.oblige(s, 'unexpected-raise:%s' % o.exc, z3.BoolVal(False), 'post')
 
